@@ -1221,6 +1221,8 @@ def main(tier, replay=None):
             jobs.append(ex.submit(gen_case, ctx, i, rng.getrandbits(48), os.path.join(base, 'B%d' % i), False))
         for i in range(nbig):
             jobs.append(ex.submit(gen_case, ctx, 5000 + i, rng.getrandbits(48), os.path.join(base, 'G%d' % i), 1))
+        for i in range(40 if thorough else 10):
+            jobs.append(ex.submit(gen_case, ctx, 7000 + i, rng.getrandbits(48), os.path.join(base, 'HG%d' % i), 3))
         for i in range(2 if thorough else 0):
             jobs.append(ex.submit(gen_case, ctx, 6000 + i, rng.getrandbits(48), os.path.join(base, 'H%d' % i), 2))
         for j in jobs:
